@@ -7,31 +7,31 @@ TXT = {
  "C02": ("redo arm per variant reads new_* only; undo/redo arms agree on sheet, cell and evaluation request; stack transitions; who may write the stacks; replay records nothing; replay arguments are the recorded fields; recorded text that replay re-parses is language-independent (8 known findings)", "values after redo"),
  "C03": ("tags and dispatch of the replication queue, its writers, append-only outside flush; replay arguments and recorded text as for C02 (the display language is per-user state: same 8 known findings); every table an operation writes can be written by the replay arms of the variants it records (2 known findings: CF dxfs)", "replica value equality"),
  "C04": ("no error exit after the history push; in the six structural operations and in every editing entry point of Model/Worksheet/Styles that a UserModel operation calls, no explicit Err is constructed after the first persistent write (writes placed at the store or mutator call, not at a `let x = &mut ..`)", "partial edits inside loops of fallible mutators"),
- "C05": ("Evaluating/Evaluated marks (one mark dominated by the state test, every return passes an Evaluated mark, no demand evaluation after it, #CIRC! producers); whole-row/column ranges are clipped by the extent of the range's own sheet in all 41 function implementations that clip", "values"),
+ "C05": ("Evaluating/Evaluated marks (one mark dominated by the state test, every return passes an Evaluated mark, no demand evaluation after it, #CIRC! producers); whole-row/column ranges are clipped by the extent of the range's own sheet in all 41 function implementations that clip; a written position matches a recorded dependency on sheet, row and column", "values"),
  "C06": ("operator -> float operation dispatch, the 25-cell cross-kind comparison table, left error wins in every binary handler, truthiness is exact comparison with 0", "coercions, function results"),
- "C07": ("clock/random sources only in volatile functions; every HashMap iteration on the evaluation / edit / save paths is order-insensitive by idiom (fold, re-collected into a map, sorted Vec, pure predicate or read-only helper of pure predicates) or by a reason keyed by (function, collection); spill extents never meet the wrong axis; the stored form of a formula parses back to the same tree (2 known findings)", "convergence of the spill re-ordering"),
+ "C07": ("clock/random sources only in volatile functions; every HashMap iteration on the evaluation / edit / save paths is order-insensitive by idiom (fold, re-collected into a map, sorted Vec, pure predicate or read-only helper of pure predicates) or by a reason keyed by (function, collection); spill extents never meet the wrong axis; the stored form of a formula parses back to the same tree (2 known findings); support matching on sheet, row and column", "convergence of the spill re-ordering"),
  "C08": ("every store of an f64 into a cell is dominated by a finite test of that value (or comes from a parse that cannot yield one)", "- (claimed)"),
  "C09": ("printer-vs-grammar table for every (parent kind, position, child kind); literal tables; per locale: function-argument, joined-list (LAMBDA) and array row/element separators are the tokens the parser expects (by emitted value and loop depth); error codecs; whole-row/column flags; identifier case; sheet-name quoting over all code points", "numeric literal text round trip"),
  "C10": ("parser configuration at every parse of stored text incl. helpers the parser is lent to; stored text comes from English printers; write footprint of set_language / set_locale; separators per locale (SEP of C09)", "values of locale-independent functions"),
  "C11": ("§0.3", "termination, recursion depth, spreadsheet functions, evaluation"),
- "C12": ("order and pairing facts of insert/delete/move: spills reset first; formulas+links+CF displaced together with one DisplaceData; descriptors shifted by exactly ±count under the right guard (also when the loop is an iterator closure); values move as cells; style copied after re-entry; whole-row/column references guarded on their own axis; each reference uses its own sheet index; stored widths are actual widths; block moves iterate in the safe direction", "values after the edit"),
- "C16": ("the second printer (to_string_moved) agrees with the grammar and with the separators per locale; in-area helpers are not called with the area's own sheet", "which cells are updated"),
- "C17": ("rename guarded by sheet-index equality; walker covers every child-bearing Node; parse configuration", "values after rename"),
- "C18": ("display and input use the same table per value kind; the decimal-point substitution is guarded by the symbol it substitutes; editor content never comes from an unchecked display rendering", "typed-number recognition"),
- "C21": ("the two conversions use the same base and are inverse translations; date_to_serial_number rejects nothing with year in 1899..=9999 (zone engine)", "chrono's arithmetic (trusted)"),
+ "C12": ("order and pairing facts of insert/delete/move: spills reset first; formulas+links+CF displaced together with one DisplaceData; descriptors shifted by exactly ±count under the right guard (also when the loop is an iterator closure); values move as cells; style copied after re-entry; whole-row/column references guarded on their own axis; each reference uses its own sheet index; stored widths are actual widths; block moves iterate in the safe direction; (C13/C14) all comparisons of one insert/delete against the same boundary cut at the same point; (C15) every description of the band shifted by a single move is the same interval", "values after the edit"),
+ "C16": ("the second printer (to_string_moved) agrees with the grammar and with the separators per locale; in-area helpers are not called with the area's own sheet; each coordinate is resolved with its own absolute flag", "which cells are updated"),
+ "C17": ("rename guarded by sheet-index equality; walker covers every child-bearing Node; parse configuration; stored defined names are compared case-insensitively", "values after rename"),
+ "C18": ("display and input use the same table per value kind; the decimal-point substitution is guarded by the symbol it substitutes; editor content never comes from an unchecked display rendering; every cell write of set_user_input uses a style normalised for the quote prefix", "typed-number recognition"),
+ "C21": ("the two conversions use the same base and are inverse translations; date_to_serial_number rejects nothing with year in 1899..=9999 (zone engine); the calendar helpers behind WEEKDAY / DAYS360 / YEARFRAC have no unsigned underflow or division by zero (zone engine with chrono's accessor ranges)", "chrono's arithmetic (trusted)"),
  "C22": ("quoting predicate vs the lexer's unquoted-name character classes, interpreted from MIR over all code-point classes; the reference printer rejects nothing inside the grid", "R1C1 references"),
- "C23": ("name codecs are mutually inverse bijections in code and in every shipped language; lexer positions advance by character counts; consume_error looks at the whole error name", "- (exhaustive)"),
- "C24": ("every persistent Workbook field is read by the exporter and written by the importer; escape tables; writer and reader agree on the escape class; part names are positional on both sides; xlsx printer", "value equality after the round trip"),
+ "C23": ("name codecs are mutually inverse bijections in code and in every shipped language; lexer positions advance by character counts; consume_error looks at the whole error name; every localized name starts with a character under which next_token starts an identifier (class read from the MIR)", "- (exhaustive)"),
+ "C24": ("every persistent Workbook field is read by the exporter and written by the importer; escape tables; writer and reader agree on the escape class; part names are positional on both sides; optional attributes are written under their own flag; xlsx printer", "value equality after the round trip"),
  "C25": ("§0.3", "third-party decoders, termination, memory"),
- "C26": ("Encode/Decode derived on the whole field closure, shape of to_bytes/from_bytes/from_workbook, stored formula text is the text of the kept parse tree, identifier case", "bitcode itself (trusted)"),
- "C27": ("guards at the writers of sheet names, ids, grid coordinates; descriptors stay ordered under delete_columns and shifted descriptors land on the right side of the edit (zone engine, count = 1..3)", "global well-formedness"),
- "C28": ("selection repaired after every sheet removal (and the repair's own postcondition, by the zone engine), stores to the selection validated", "-"),
+ "C26": ("Encode/Decode derived on the whole field closure, shape of to_bytes/from_bytes/from_workbook, stored formula text is the text of the kept parse tree, identifier case compared with the fold the printer uses", "bitcode itself (trusted)"),
+ "C27": ("guards at the writers of sheet names, ids, grid coordinates; descriptors stay ordered under delete_columns and shifted descriptors land on the right side of the edit (zone engine, count = 1..3, also through a private helper); BAND for single-row moves", "global well-formedness"),
+ "C28": ("selection repaired after every sheet removal (and the repair's own postcondition, by the zone engine), stores to the selection validated *on the value stored* (reaching definitions), every range store has a corner with the provenance of the selected cell", "-"),
  "C29": ("provenance of every descriptor field at the row/column setters and at delete_column_style; stored widths are actual widths", "-"),
- "C30": ("Style fields <-> Styles tables both ways; interning lookups compare by exact equality only (also inside closures)", "value equality"),
- "C31": ("spill write/clear guards, constructors, Dynamic kind never paired with the old extent, scalar results shrink the extent, a cut anchor's block is skipped only for same-sheet paste targets", "exactness of block contents"),
- "C32": ("rename walker, parse configuration, English storage", "values"),
- "C33": ("links and CF displaced with cells; link diffs recorded; CF formulas rewritten in their storage configuration", "values"),
- "C34": ("the absolute/relative state cycle is a 4-cycle in the right order; one-axis endpoints toggle their single marker (roles found by dataflow)", "cursor arithmetic (partly C11)"),
+ "C30": ("Style fields <-> Styles tables both ways; interning lookups compare by exact equality only (also inside closures); returned indices come from a lookup or a push, never a constant", "value equality"),
+ "C31": ("spill write/clear guards, constructors, Dynamic kind never paired with the old extent, scalar results shrink the extent, a cut anchor's block is skipped only for same-sheet paste targets; restart clears inside the restart loop", "exactness of block contents"),
+ "C32": ("rename walker, parse configuration, English storage; names compared case-insensitively; a name scoped to a deleted sheet is skipped", "values"),
+ "C33": ("links and CF displaced with cells; link diffs recorded; CF formulas rewritten in their storage configuration; BAND for single-row moves", "values"),
+ "C34": ("the absolute/relative state cycle is a 4-cycle in the right order; one-axis endpoints toggle their single marker (roles found by dataflow); every index and slice of the rewriting stays inside the text (zone engine, k + p < len for skip/position)", "-"),
 }
 rows = {}
 for f in sorted(glob.glob('/verif/evidence/C*.json')):
